@@ -552,7 +552,7 @@ impl Chip127x {
                     self.raise(IRQ_VALID_HEADER);
                     true
                 }
-                Outcome::Timeout => {
+                Outcome::Timeout | Outcome::PreambleTimeout => {
                     if m == Mode::RxSingle {
                         env.now_us += 20_000;
                         self.raise(IRQ_RX_TIMEOUT);
